@@ -275,8 +275,23 @@ SEEDS = {
              "n_pop >= 20: the shared circuit is mutated once per slot and generation, earlier slots keep stale scores that enter the hall of fame"),
  "S-C20-5": ("C20", "DensityMatrixCompiler caches the full-size matrix of parameter-free one-qubit gates under (class, reg_type, register, n_quantum)",
              "one compiler object, two circuits with the same total size and another emitter / photon split: a cached emitter gate acts on the wrong position"),
+
+ # ---- round 6 (eight properties, 50-minute agents)
+ "S-C01-6": ("C01", "DensityMatrix.apply_measurement decides whether a forced outcome is possible with `p > 0` instead of `not isclose(p, 0)`",
+             "density-matrix backend, forced setting, the forced value being the impossible outcome of a qubit that returned to a basis state through interference (H H, a Bell pair uncomputed: p ~ 1e-34 instead of 0)"),
+ "S-C06-6": ("C06", "transformation.y_gate rewritten as one pass `phase ^= x | z` (should be x ^ z: a row with a Y on the qubit commutes with Y)",
+             "a Y-type error (PauliError('Y'), the Y branch of depolarizing noise, a SigmaY gate) on a qubit that holds a Y component in a stabilizer row; also caught by C07 (GroupOK) and C01 (StateOK)"),
+ "S-C09-6": ("C09", "get_stabilizer_tableau_from_graph builds the adjacency matrix with nodelist=sorted(graph.nodes) while converter_gate_list keeps insertion order",
+             "lc_check / state_converter_circuit on nx graphs whose insertion order is not sorted: gates land on the wrong qubits, LinAlgError swallowed -> 'not equivalent' or a Warning under validate=True"),
+ "S-C12-6": ("C12", "CircuitBase.copy() pre-seeds deepcopy's memo with the register table: copy and original share one Register object",
+             "copy(), then a register-adding edit on one of the two, then look at (or keep editing) the other: its register counts disagree with its own graph"),
+ "S-C14-6": ("C14", "OneQubitGateWrapper caches its openQASM info in a class-level dict keyed by frozenset(operations)",
+             "two wrappers in one process with the same SET of gate classes in another order or multiplicity ([H, P] then [P, H] or [P, H, P]): the later ones export the first one's gate definition"),
+ "S-C17-6": ("C17", "_stabilizer_to_density_pure accumulates into a preallocated float buffer (`rho[:] = ...`): imaginary parts are dropped",
+             "Infidelity / TraceDistance with a density-matrix target and a stabilizer state that has a Y-type generator: the state is converted to the real part of its matrix"),
 }
 STRENGTHENED = {
+ "S-C09-6": "lc_check on the same pairs handed over as graphs with a shuffled node insertion order (position view unchanged)",
  "S-C02-5": "every third 3-5 vertex target also as a stabilizer state in a random gauge with signed generators (products of the textbook ones), built independently",
  "S-C03-5": "emitter_sorted on pools of 6-vertex graphs most of which have a cut block with different real and GF(2) rank",
  "S-C06-5": "every second noisy circuit is compiled by both backends as the SAME object (no copy in between)",
